@@ -542,16 +542,37 @@ fn parsed_checks<'a>(out: &mut Out, case: &str, what: &str, buf: &'a [u8], start
             let eq_want = Name::from_octets(want.to_vec()).map(|n| pn == n).unwrap_or(true);
             // walk up with parent() on one copy and split_first() on another
             let mut up = pn.clone(); let mut sf = pn.clone();
-            let mut parents: Vec<Vec<u8>> = vec![]; let mut firsts: Vec<Vec<u8>> = vec![];
+            let mut parents: Vec<Vec<u8>> = vec![]; let mut firsts: Vec<Vec<u8>> = vec![]; let mut flat_bad: Vec<String> = vec![];
             let walk = buf.len() % 3 == 0 || want.len() < 40;
             for _ in 0..(if walk { 130 } else { 0 }) {
                 let first = sf.split_first().map(|l| l.as_slice().to_vec());
                 let moved = up.parent();
                 if moved != first.is_some() { parents.push(vec![0xEE]); break; }
                 match first { None => break, Some(l) => { firsts.push(l); parents.push(up.to_vec().as_slice().to_vec());
-                    if sf.to_vec().as_slice() != up.to_vec().as_slice() || usize::from(up.compose_len()) != up.to_vec().as_slice().len() { parents.push(vec![0xEF]); break; } } }
+                    if sf.to_vec().as_slice() != up.to_vec().as_slice() || usize::from(up.compose_len()) != up.to_vec().as_slice().len() { parents.push(vec![0xEF]); break; }
+                    // every way of flattening the shortened name must agree with its label iterator
+                    for (tag, q) in [("parent", &up), ("split_first", &sf)] {
+                        let mut it2 = Vec::new(); for l in q.iter_labels() { it2.push(l.len() as u8); it2.extend_from_slice(l.as_slice()); }
+                        let mut c2 = Vec::new(); q.compose(&mut c2).unwrap();
+                        let cow2 = q.to_cow().as_slice().to_vec();
+                        let f2: Name<Vec<u8>> = q.clone().flatten_into();
+                        let eq2 = Name::from_octets(it2.clone()).map(|n| *q == n).unwrap_or(false);
+                        if c2 != it2 || cow2 != it2 || f2.as_slice() != &it2[..] || !eq2 {
+                            flat_bad.push(format!("after {} x{}: labels {} compose {} to_cow {} flatten_into {} eq {}", tag, parents.len(), hex(&it2), hex(&c2), hex(&cow2), hex(f2.as_slice()), eq2));
+                        }
+                    } } }
             }
-            (v, c, cl, labels, f.as_slice().to_vec(), (cow, it, eq_want, parents, firsts))
+            if walk {
+                // iter_suffixes: the same names again
+                for (k, sfx) in pn.iter_suffixes().enumerate().take(130) {
+                    let mut it2 = Vec::new(); for l in sfx.iter_labels() { it2.push(l.len() as u8); it2.extend_from_slice(l.as_slice()); }
+                    let mut c2 = Vec::new(); sfx.compose(&mut c2).unwrap();
+                    let cow2 = sfx.to_cow().as_slice().to_vec();
+                    if c2 != it2 || cow2 != it2 { flat_bad.push(format!("iter_suffixes #{}: labels {} compose {} to_cow {}", k, hex(&it2), hex(&c2), hex(&cow2))); }
+                    if k > 0 && parents.get(k - 1).map(|p| p != &it2).unwrap_or(false) { flat_bad.push(format!("iter_suffixes #{} = {} differs from parent() chain", k, hex(&it2))); }
+                }
+            }
+            (v, c, cl, labels, f.as_slice().to_vec(), (cow, it, eq_want, parents, firsts, flat_bad))
         })
     }));
     {
@@ -562,7 +583,8 @@ fn parsed_checks<'a>(out: &mut Out, case: &str, what: &str, buf: &'a [u8], start
     match r {
         Err(e) => out.check(false, "parsed_name_panic", case, &format!("{}: {}", what, e)),
         Ok(Err(_)) => out.check(!want_ok, "parsed_vs_flat_mismatch", case, &format!("{}: ParsedName::parse rejects a name that Name::from_octets accepts", what)),
-        Ok(Ok((v, c, cl, labels, f, (cow, it, eq_want, parents, firsts)))) => {
+        Ok(Ok((v, c, cl, labels, f, (cow, it, eq_want, parents, firsts, flat_bad)))) => {
+            out.check(flat_bad.is_empty(), "parsed_suffix_octets", case, &format!("{}: {}", what, flat_bad.join(" | ")));
             if want_ok && v == want && (buf.len() % 3 == 0 || want.len() < 40) {
                 // expected: the suffixes of the name at every label start, the labels one by one
                 let mut exp_p: Vec<Vec<u8>> = vec![]; let mut exp_f: Vec<Vec<u8>> = vec![];
